@@ -73,6 +73,7 @@ int env_fd_kind(int fd);
 int env_lib_fds_open(void);                        /* number of library-created fds still open */
 void env_lib_fds_list(char *buf, int len);
 int env_timerfd_armed(int fd, struct timespec *exp);
+void env_forget_fd(int fd);                      /* a library-created descriptor was handed to the caller */
 int env_fd_owner(int fd);                        /* scheduler id of the thread that created a library descriptor */
 extern int (*env_owner_hook)(void);
 int env_next_timerfd(struct timespec *out);      /* earliest armed emulated timerfd */
